@@ -181,52 +181,83 @@ def lts_frames(rng, frag, nseg):
     return fs
 
 
+class WriterSim:
+    """where the writer is if it never has to wait: a frame that closes a segment (in lts_frames: every key frame
+    but the first) takes two writer steps, list and finish"""
+    def __init__(self, fs, sched):
+        self.fs, self.sched, self.pos, self.mid, self.listed = fs, sched, 0, False, 0
+
+    def step(self):
+        self.sched.append([0])
+        if self.mid:
+            self.mid = False
+        elif self.pos < len(self.fs):
+            if self.fs[self.pos][0] == 1 and self.pos > 0:
+                self.mid = True
+                self.listed += 1
+            self.pos += 1
+
+    def done(self):
+        return self.pos >= len(self.fs) and not self.mid
+
+
 def lts_case(rng, mem, shape):
-    """schedules of one writer and several fetchers: ( 0 ) writer frame, ( 1 id seq ) lookup, ( 2 id ) copy"""
+    """schedules of one writer and several fetchers: ( 0 ) writer step, ( 1 id seq ) lookup, ( 2 id ) copy"""
     frag = rng.choice([1, 2, 5])
     cfg = gen_cfg(rng, frag, mem)
     nseg = rng.randint(5, 9)
     fs = lts_frames(rng, frag, nseg)
-    per = len(fs) / (nseg + 0.0)
     sched = []
+    w = WriterSim(fs, sched)
     if shape == "hold":
         # let k segments close, look one of the listed numbers up, push frames across 1..3 rollovers, then copy
         k = rng.randint(3, nseg - 2)
-        nw = 0
-        while nw < len(fs) and sum(1 for f in fs[:nw] if f[0] == 1) < k + 1:
-            sched.append([0]); nw += 1
+        while w.listed < k or w.mid:
+            w.step()
         want = rng.choice([k - 2, k - 2, k - 1, k])
         sched.append([1, 0, want])
         if rng.random() < 0.4:
             sched.append([1, 1, rng.choice([k - 2, k - 1, k, k + 1, 0])])
-        for _ in range(int(per * rng.choice([1, 2, 3])) + 1):
+        for _ in range(int(len(fs) / nseg * rng.choice([1, 2, 3])) + 2):
             sched.append([0])
         sched.append([2, 0])
         for _ in range(rng.randint(0, 6)):
             sched.append([0])
         sched.append([2, 1])
         sched += [[0]] * rng.randint(0, len(fs))
-    elif shape == "quick":
-        # the opposite order: lookup and copy back to back between frames
+    elif shape == "listed":
+        # the writer stands at hls.segment.listed (segment just listed, rest of the frame not yet run): fetch the
+        # newest listed number (and now and then an older one) to completion, then let the writer go on
         fid = 0
-        for i in range(len(fs)):
-            sched.append([0])
+        while not w.done():
+            w.step()
+            if w.mid and rng.random() < 0.8:
+                for seq in [w.listed] + ([w.listed - rng.choice([1, 2, 3])] if rng.random() < 0.3 else []):
+                    sched.append([1, fid, max(0, seq)])
+                    if rng.random() < 0.85:
+                        sched.append([2, fid])
+                    fid += 1
+        for h in range(fid):
+            if rng.random() < 0.5:
+                sched.append([2, h])
+    elif shape == "quick":
+        # lookup and copy back to back between writer steps
+        fid = 0
+        while not w.done():
+            w.step()
             if rng.random() < 0.3:
-                est = sum(1 for f in fs[:i + 1] if f[0] == 1) - 1
-                sched.append([1, fid, max(0, est - rng.choice([0, 1, 2, 3, 4]))])
+                sched.append([1, fid, max(0, w.listed - rng.choice([0, 1, 2, 3, 4]))])
                 sched.append([2, fid])
                 fid += 1
     else:
         fid = 0
-        nw = 0
         live = []
-        for _ in range(rng.randint(20, 3 * len(fs))):
+        for _ in range(rng.randint(20, 4 * len(fs))):
             r = rng.random()
             if r < 0.55:
-                sched.append([0]); nw += 1
+                w.step()
             elif r < 0.78:
-                est = sum(1 for f in fs[:min(nw, len(fs))] if f[0] == 1) - 1
-                sched.append([1, fid, max(0, est - rng.choice([0, 1, 2, 2, 3, 4]))])
+                sched.append([1, fid, max(0, w.listed - rng.choice([0, 0, 1, 2, 2, 3, 4]))])
                 live.append(fid); fid += 1
             elif live:
                 sched.append([2, live.pop(rng.randrange(len(live))) if rng.random() < 0.8 else rng.randrange(fid)])
@@ -322,9 +353,10 @@ def run(ck):
     ck.stream("thresholds", bc, "C10_run", "C10", "C10_ok", nontrivial=lambda c: len(c[2]) >= 10,
               sig=lambda c, e, o: "hls-threshold-" + ("memory" if c[0][2] else "disk"))
     # 2c. interleavings of fetches with rollover, replayed with the schedule controller on the real lock:
-    #     a fetcher parked at hls.segment.get holds the read lock, the writer must wait for it
+    #     a fetcher parked at hls.segment.get holds the read lock, the writer must wait for it; the writer parked at
+    #     hls.segment.listed has just listed a segment, which must already be complete in the store
     lc = []
-    for shape, k in (("hold", 24), ("quick", 8), ("random", 28)):
+    for shape, k in (("hold", 20), ("listed", 20), ("quick", 6), ("random", 24)):
         for _ in range(k * (8 if big else 1)):
             lc.append(lts_case(rng, rng.random() < 0.5, shape))
     ck.stream("fetch-rollover-schedules", lc, "C10_lts_run", "C10_lts", "C10_lts_ok",
@@ -365,7 +397,8 @@ def run(ck):
              "(and re-multiplexed, byte-compared) content of each newly listed segment are compared with the extracted model and judged by the "
              "oracle of C10_model_passes; non-trivial = at least 8 frames spanning >= 4 fragments with >= 4 key frames or audio; plus the explicit "
              "fetch / 1..6 rollovers / read schedule, the float64 and %.3f reformulations on boundary, tie and random values, the D35 witness, "
-             "and schedules of one writer and several fetchers (lookup, frames across 1..3 rollovers, copy; back-to-back; random) replayed on the "
+             "and schedules of one writer and several fetchers (lookup, frames across 1..3 rollovers, copy; fetch of the newest number while the writer "
+             "stands at hls.segment.listed; back-to-back; random) replayed on the "
              "real RW lock with the schedule controller: fetch results and the writer-blocked trace judged by the oracle of C10_lts_model_passes",
         trusted=["TS bytes of a segment are an opaque function of its frame list (mpegts.Writer, C09): the harness demultiplexes a segment "
                  "and checks that re-multiplexing with the real Writer reproduces the bytes",
